@@ -155,6 +155,11 @@ var c14Reps = 6
 // c14Check compares one ordered pair with its swap c14Reps times. A pair whose verdict changes between
 // repetitions is reported as unstable.
 func c14Check(cs c14Case) (string, []evid.Violation) {
+	reps := c14Reps
+	if strings.Count(cs.A, "+")+strings.Count(cs.B, "+") > 0 && !strings.Contains(cs.A, ":old") {
+		// pairs of multi-feature family members (thorough tier, ~2M pairs): two repetitions
+		reps = 2
+	}
 	out0, vs0 := c14CheckOnce(cs)
 	sig := func(vs []evid.Violation) string {
 		var l []string
@@ -164,7 +169,7 @@ func c14Check(cs c14Case) (string, []evid.Violation) {
 		sort.Strings(l)
 		return strings.Join(l, " || ")
 	}
-	for i := 1; i < c14Reps; i++ {
+	for i := 1; i < reps; i++ {
 		out, vs := c14CheckOnce(cs)
 		if out != out0 || sig(vs) != sig(vs0) {
 			return "unstable", []evid.Violation{{Signature: "unstable-report", What: fmt.Sprintf("comparing (%s,%s) and its swap repeatedly gives different verdicts (%s [%s] vs %s [%s]): the reported direction depends on map iteration order", cs.A, cs.B, out0, sig(vs0), out, sig(vs)), Case: cs}}
